@@ -3,6 +3,7 @@ package props
 // C41/regex and C41/quote: see c41_test.go.
 
 import (
+	"regexp"
 	"fmt"
 	"strings"
 	"unicode"
@@ -152,6 +153,27 @@ func c41GenRE(t *rapid.T) c41RE {
 		}
 	}
 	c.Src = sb.String()
+	if !g.posix && rapid.IntRange(0, 7).Draw(t, "anchored") == 0 {
+		// a pattern anchored at both ends (a plain literal, a quoted literal or
+		// the generated pattern) against a source that contains the literal
+		// several times: find, replace and split must all honour the anchors
+		lit := rapid.SampledFrom([]string{"a", "ab", "b", "ba", "世", "a.b", "é", "ab", "a b", "-"}).Draw(t, "alit")
+		inner := lit
+		switch rapid.IntRange(0, 3).Draw(t, "akind") {
+		case 0:
+			inner = c.Pat
+		case 1:
+			inner = regexp.QuoteMeta(lit)
+		}
+		if rapid.IntRange(0, 3).Draw(t, "aform") == 0 {
+			c.Pat = `\A` + inner + `\z`
+		} else {
+			c.Pat = "^" + inner + "$"
+		}
+		sep := rapid.SampledFrom([]string{"", "", " ", "\n", "x"}).Draw(t, "asep")
+		k := rapid.IntRange(1, 3).Draw(t, "arep")
+		c.Src = strings.TrimSuffix(strings.Repeat(lit+sep, k), sep)
+	}
 	c.Repl = rapid.SampledFrom([]string{"X", "", "$1", "<>", "世", "$$", "\\1", "${w}", "ab"}).Draw(t, "repl")
 	nt := rapid.IntRange(0, 4).Draw(t, "ntmpl")
 	var tb strings.Builder
